@@ -80,6 +80,19 @@ pub fn run(ctx: &mut Ctx) {
                     if let (Some(ds), Some(rd)) = (ds, rd) { certs.push((format!("notBefore={nb} notAfter={na}"), der::Encode::to_der(&ds).unwrap(), der::Encode::to_der(&rd).unwrap())); }
                 }
             }
+            // … and with key identifiers of every length but the usual one (a SHA-1 value has 20 octets)
+            for len in [0usize, 1, 8, 19, 21, 32, 64, 200] {
+                for which in 0..2 {
+                    let k = p256::ecdsa::SigningKey::random(&mut rng);
+                    let own = crate::pki::ski_of(&k).as_bytes().to_vec();
+                    let odd: Vec<u8> = own.iter().cycle().take(len).cloned().collect();
+                    let (ski, aki_ds, aki_rd) = if which == 0 { (Some(odd.clone()), Some(crate::pki::ski_of(&sc.pki.iaca_key).as_bytes().to_vec()), Some(crate::pki::ski_of(&sc.pki.reader_ca_key).as_bytes().to_vec())) }
+                                               else { (Some(own.clone()), Some(odd.clone()), Some(odd.clone())) };
+                    let ds = crate::pki::leaf_cert_with_ids(&k, &sc.pki.iaca_key, "CN=Test IACA,C=US", "CN=Test DS,C=US", crate::pki::EKU_DS, 150 + len as u64, ski.clone(), aki_ds);
+                    let rd = crate::pki::leaf_cert_with_ids(&k, &sc.pki.reader_ca_key, "CN=Test Reader CA,C=US", "CN=Test Reader,C=US", crate::pki::EKU_READER, 170 + len as u64, ski, aki_rd);
+                    if let (Some(ds), Some(rd)) = (ds, rd) { certs.push((format!("{} of {len} octets", if which == 0 { "subjectKeyIdentifier" } else { "authorityKeyIdentifier" }), der::Encode::to_der(&ds).unwrap(), der::Encode::to_der(&rd).unwrap())); }
+                }
+            }
             let first: std::collections::BTreeMap<String, Vec<String>> = [(NS.to_string(), vec!["family_name".to_string()])].into_iter().collect();
             let dev_regs = [isomdl::definitions::x509::trust_anchor::TrustAnchorRegistry::default(), registry(vec![(sc.pki.reader_ca.clone(), isomdl::definitions::x509::trust_anchor::TrustPurpose::ReaderCa)])];
             for (name, ds_der, rd_der) in certs {
